@@ -127,13 +127,14 @@ CHECKS = {
             "embedded in lines through dconv -S",
             "formats are exhaustive up to the token bound, values are an enumerated boundary set; scope reading: one calendar family's fields (no quarter, %G only "
             "with %V), 2-/1-digit years inside the window around --base; known finding: %dB", "5 C09"),
-    "C10": ("exploration", "TLA+ Lex (tokeniser transcribed over byte classes: TokSafe/Progress; pinned default branch refuted) and Buf (write discipline: Within; unguarded writers refuted) model-checked; every model string / (format, buffer size) replayed on the real tokeniser, parsers, formatters and tools under ASan+bounds with exact-size heap blocks; events validated by SafeTrace (tokeniser conformance with Lex, end pointers, return lengths)",
+    "C10": ("exploration", "TLA+ Lex (tokeniser transcribed over byte classes: TokSafe/Progress; pinned default branch refuted) and Buf (write discipline: Within; unguarded writers refuted) and Unescape (in-place escape rewriting) model-checked; every model string / (format, buffer size) replayed on the real tokeniser, parsers, formatters and tools under ASan+bounds with exact-size heap blocks; events validated by SafeTrace (tokeniser conformance with Lex, end pointers, return lengths)",
             "the sanitizer supplies the decisive observation, the models the exhaustive small-scope input structure: all 30k|400k byte-class strings of <= 4|5 "
             "positions (13 classes) are concretised and used as format and as text on the __tok_spec loop, dt_strpdt/strpd/strpt/strpdtdur, "
             "dt_strfdt/strfd/strft/strfdtdur with buffers of 1..32 bytes; every (format, bsz) of Buf and all pairs of 56 real tokens x bsz 1..23; runs of "
             "15..5000 identical bytes; 10 tools with the strings as value, -f, -i, stdin line, duration, expression, round spec, increment, zone name, escaped "
             "format, every modifier x specifier letter alone and at the 254/250-byte edge, formats of 246..258 bytes ending in a specifier, streams around the "
-            "16384-line chunk limit; SafeTrace.tla demands the token count and end offset Lex.tla computes for every string",
+            "16384-line chunk limit; SafeTrace.tla demands the token count and end offset Lex.tla computes for every string; the in-place escape processor of -e "
+            "is Unescape.tla (Safe, NoNul, Meaning, Finishes; off-by-one table bound refuted), the real dt_io_unescape on 4.7k|37k model strings + 4k|31k byte strings validated by UnescapeTrace.tla",
             "no proof of memory safety: ASan/UBSan-bounds on the explored inputs; C strings without embedded NUL; assertion failures count as violations", "5 C10"),
 }
 NOT_APPLICABLE = []
